@@ -386,6 +386,14 @@ func verifLemmaMaxBodyTight(c *channelInstance, m *Message, chunkSize int, chunk
 //@   loop 0 invariant [C09:error-nothing] i < len(instances) - 1 ==> err != nil
 //@   loop 0 decreases i + 1
 
+// C10: lastRecvSeq(s) is the sequence number of the chunk this channel accepted last (ghost). The code
+// keeps no such state and performs no comparison, so a chunk carrying that very number again -- a
+// verbatim replay of the last chunk -- is accepted: [C10:replay-rejected] below is a known finding.
+// What does hold, and is what the C10 check protects: the number the receiver attributes to a chunk
+// is read from the eight bytes in front of the delivered body inside the verified (and decrypted)
+// buffer, never from the wire bytes.
+//@ ghostmap lastRecvSeq uint32
+
 // One chunk from the transport: whatever the peer sent (any frame uacp.Conn.Receive can deliver, in any
 // channel state) no panic; a delivered chunk has its headers allocated and its data lies in memory
 // allocated during this call (the frame, or the buffer of the instance that decrypted it) -- never in
@@ -403,6 +411,9 @@ func verifLemmaMaxBodyTight(c *channelInstance, m *Message, chunkSize int, chunk
 //@           result0.MessageHeader.SequenceHeader != nil
 //@   ensures [C20:fresh-data] err == nil ==> len(result0.Data) == 0 || fresh(result0.Data)
 //@   ensures [C13:error-nothing] err != nil ==> result0 == nil
+//@   ensures [C10:header-in-front] err == nil ==> off(result0.Data) >= 8
+//@   ensures [C10:number-from-verified-data] err == nil ==> result0.MessageHeader.SequenceHeader.SequenceNumber == le32(result0.Data, -8)
+//@   ensures [C10:replay-rejected] err == nil ==> result0.MessageHeader.SequenceHeader.SequenceNumber != lastRecvSeq(s)
 
 // mergeChunks for ANY chunk list (a peer need not be conforming): no panic, and the result is the single
 // chunk's own data or freshly allocated (the C12 contract above states the content for conforming lists)
